@@ -252,7 +252,7 @@ func jumboFrame(g *Gen, n int) any {
 
 func init() {
 	register(&scenario{
-		Prop: "C06", Run: runC06, Level: "exploration", Quick: 500000, Thorough: 15000000,
+		Prop: "C06", Run: runC06, Level: "exploration", Quick: 1000000, Thorough: 15000000,
 		Rule:        "one run = one generated canonical message of one of the 170 types (value drawn from the pinned schema) encoded behind a seeded buffer history (prior content: empty/junk/earlier frames; bytes already consumed; capacity slack forcing or avoiding reallocation), then re-encoded 0-2 times, then optionally followed by a second message. Oracles: unread prior bytes unchanged; appended bytes == encoding of a pre-made clone into an empty buffer; re-encode appends the same bytes; whole buffer == concatenation. A run is non-trivial when at least one history fault fired (unread prior bytes, consumed bytes, reallocation, re-encode, batch) and at least one oracle clause was evaluated on library output; distinct = distinct run fingerprints (hash of all tape draws and observed output bytes).",
 		Assumptions: []string{"the reference encoding is the library's own output in the trivial history (fresh buffer, clone of the value)", "values are canonical w.r.t. the pinned schema"},
 	})
@@ -345,12 +345,12 @@ func firstDiff(a, b []byte) int {
 
 func init() {
 	register(&scenario{
-		Prop: "C04", Run: func(c *RunCtx) { runFrame(c, "C04") }, Level: "exploration", Quick: 500000, Thorough: 15000000,
+		Prop: "C04", Run: func(c *RunCtx) { runFrame(c, "C04") }, Level: "exploration", Quick: 800000, Thorough: 15000000,
 		Rule:        "one run = one frame of a type with a self-computed length (SSE, SZSE, risk, sample root), body type drawn over every discriminator key pinned for that frame (or absent), stale caller-supplied length drawn from {0,4,random}, encoded behind a seeded buffer history and re-encoded 0-2 times. Oracle (exchange verifier, pinned header geometry): length on the wire == number of body bytes appended; the object reports the same number. Non-trivial = a history/stale fault fired and the oracle ran on library output; distinct = distinct run fingerprints.",
 		Assumptions: []string{"pinned header geometry of the four frame types (frames.go) is the exchange's", "body values canonical w.r.t. the pinned schema"},
 	})
 	register(&scenario{
-		Prop: "C05", Run: func(c *RunCtx) { runFrame(c, "C05") }, Level: "exploration", Quick: 500000, Thorough: 15000000,
+		Prop: "C05", Run: func(c *RunCtx) { runFrame(c, "C05") }, Level: "exploration", Quick: 800000, Thorough: 15000000,
 		Rule:        "one run = one frame of a checksummed type (SSE, SZSE: byte sum mod 256; sample root: CRC-32/IEEE), body drawn over every pinned discriminator key (or absent), stale caller-supplied checksum, encoded behind a seeded buffer history (earlier frames / junk / consumed bytes / tight capacity) and re-encoded 0-2 times; thorough tier adds multi-megabyte frames. Oracle (exchange verifier): trailer == independently implemented algorithm over exactly this frame's bytes up to the trailer; object reports the same value. Non-trivial = a history/stale fault fired and the oracle ran; distinct = distinct run fingerprints.",
 		Assumptions: []string{"pinned header geometry and checksum algorithms per frame type (frames.go) are the exchange's", "checksum reference implementations in the harness are independent of codec/checksum.go"},
 	})
